@@ -11,7 +11,7 @@ from mirsym.values import *
 from mirsym.models.iters import mk_list_iter
 from checks.common import *
 
-NAMES = ['a', 'b']
+NAMES = ['a', 'a.liquid']      # a name and its '.liquid' sibling: fallbacks between related names are observable
 ABSENT, VALID, BROKEN = 0, 1, 2
 
 
